@@ -5,6 +5,7 @@ import UralModel.Lemmas.NormBridge
 import UralModel.Lemmas.C07Bridge
 import UralModel.Lemmas.Redirect
 import UralModel.Props.C15
+import UralModel.Model.FingerprintUrl
 /-!
 # C03 on STRINGS: (c1), (a) with the parser inside the model
 
@@ -36,7 +37,7 @@ set_option linter.unusedSimpArgs false
 set_option linter.unusedVariables false
 namespace Ural.Props.C03
 open Ural Ural.Py Ural.UrlParts Ural.Quote Ural.Canonicalize Ural.Normalize Ural.C03
-open Ural.NormBridge Ural.CanonRoundTrip Ural.UrlRoundTrip
+open Ural.NormBridge Ural.CanonRoundTrip Ural.UrlRoundTrip Ural.Fingerprint
 
 /-- the parse of the printed canonical form (`reparsedOf`, C01's `canonicalize_reparse`) is a
 re-parse of the canonical components in the sense of `Reparses`: the hypothesis of the
@@ -357,5 +358,160 @@ example :
   refine ⟨by decide +kernel, hu, hr, ?_, ?_⟩
   · rw [normalizeUrlString_cleaned]; unfold resolvedClean; simp only [if_true]; rw [hu]; decide +kernel
   · rw [normalizeUrlString_cleaned]; unfold resolvedClean; simp only [if_true]; rw [hr]; decide +kernel
+
+/-! ## (c2) and (b) on strings, on the lower-case class -/
+
+theorem fp_string_of_split_eq (puny : Str → Str) (trie : SNode Str) (ss : Bool) (x y : Str)
+    (h : fingerprintUrlStringSplit puny id trie ss x = fingerprintUrlStringSplit puny id trie ss y) :
+    fingerprintUrlString puny id trie ss x = fingerprintUrlString puny id trie ss y := by
+  unfold fingerprintUrlString
+  rw [h]
+
+/-- `fingerprint_url` (tuple) of a lower-case string from `normalize_url`'s tuple -/
+theorem fp_split_of_norm (puny : Str → Str) (trie : SNode Str) (ss : Bool) (x : Str) (X : Split)
+    (hl : lower x = x)
+    (h : normalizeUrlStringSplit puny id fpOpts true x = .inr X) :
+    fingerprintUrlStringSplit puny id trie ss x = fpParts (stringEnv puny id trie) ss X := by
+  rw [fingerprintUrlStringSplit_eq]
+  unfold fingerprintUrlSplit
+  have e : normalizeUrlSplit (stringEnv puny id trie).puny (stringEnv puny id trie).parse
+      (stringEnv puny id trie).platform fpOpts true (lower x) =
+      normalizeUrlStringSplit puny id fpOpts true x := by
+    rw [hl, normalizeUrlStringSplit_eq]; rfl
+  rw [e, h]
+
+/-- **(c2) on STRINGS** `fingerprint_url(canonicalize_url(u)) == fingerprint_url(u)`, both result
+forms, `strip_suffix` free, any suffix trie.  PARTIAL: the class of (c1) on strings with
+`infer_redirection` on (no hint on `u` or on the canonical form `r`), restricted to the class
+where (b) is proved — `u` and `r` are lower-case strings (`str.lower` leaves them alone: no
+capital, no escape with a hex letter in `r`) whose parses are `LowerInput` (what their escapes
+decode to is lower-case too). -/
+theorem fingerprint_canonicalize_string_partial (puny : Str → Str) (hp : PunyLaws puny)
+    (hpc : PunyClean puny) (dp : Str) (hdp : LetterProtocol dp) (trie : SNode Str) (ss : Bool)
+    (g : UrlG) (u r : Str) (hg : InClassOf false g u) (hpct : '%' ∉ g.host)
+    (hr : canonicalizeUrl puny ⟨dp, false, false⟩ u = some r)
+    (hiu : infer u = u) (hir : infer r = r) (hlu : lower u = u) (hlr : lower r = r)
+    (hLu : ∀ po, portVal g.port = some po → LowerInput (g.record po))
+    (hLr : ∀ p', parseUrl r = some p' → LowerInput p') :
+    fingerprintUrlStringSplit puny id trie ss r = fingerprintUrlStringSplit puny id trie ss u ∧
+    fingerprintUrlString puny id trie ss r = fingerprintUrlString puny id trie ss u := by
+  have hpre : preClean u = g.str := hg.reaches
+  have hg' : InClassOf true g u := by
+    refine ⟨hg.wf, ?_⟩
+    unfold resolvedClean
+    simp only [if_true]; rw [hiu]; exact hpre
+  obtain ⟨s0, hs0⟩ := parse_cleanUrl_grammar g hg.wf hg.noUnsafe u dp hdp.shaped hpre
+  obtain ⟨p, ⟨hpp, hui⟩, _⟩ := (Props.C01.canonicalize_accepts_iff puny ⟨dp, false, false⟩ u r).1 hr
+  simp only at hpp
+  rw [hs0] at hpp
+  cases hpo : portVal g.port with
+  | none => rw [hpo] at hpp; cases hpp
+  | some po =>
+    rw [hpo] at hs0
+    simp only [Option.map_some] at hs0
+    have hhost : ∀ h0, ({ g.record po with scheme := s0 } : Parsed).hostname = some h0 → '%' ∉ h0 := by
+      intro h0 hh
+      simp only [UrlG.record, UrlG.hostname] at hh
+      split at hh
+      · cases hh
+      · cases hh
+        exact (lowerOf_lowerHost g.host g.host (fun _ h => h)).not_mem hpct (by decide)
+    obtain ⟨c1, _⟩ := normalize_canonical_string puny hpc dp hdp fpOpts true u r _ hs0 hr hhost
+      (fun _ => hir)
+    -- the parse of `r`
+    obtain ⟨s, hs, hparse⟩ := Props.C01.canonicalize_reparse puny hpc ⟨dp, false, false⟩ hdp.shaped u _
+      ⟨hs0, by rw [hpo] at hpp; simp only [Option.map_some, Option.some.injEq] at hpp; rw [hpp]; exact hui⟩
+    rw [hr] at hs; cases hs
+    simp only at hparse
+    have hLp' := hLr _ hparse
+    have hLp := hLu po hpo
+    have hAbs : absP (g.record po).path = true := (wf_facts hg.wf).pabs
+    have hu : normalizeUrlStringSplit puny id fpOpts true u =
+        .inr (normParts puny fpOpts g.proto.hasProto (g.record po)) := by
+      rw [normalizeUrlStringSplit_eq, normalizeUrlSplit_grammar puny fpOpts true g u hg']
+      unfold UrlG.parsed
+      rw [hpo]; rfl
+    have key := fingerprint_canonicalize_partial (stringEnv puny id trie) hp ss (g.record po)
+      (reparsedOf puny false false { g.record po with scheme := s0 }) hAbs s0
+      (reparses_reparsedOf puny false false _) hLp hLp' g.proto.hasProto true
+    rw [hLp.1, hLp'.1] at key
+    have e : fingerprintUrlStringSplit puny id trie ss r = fingerprintUrlStringSplit puny id trie ss u := by
+      rw [fp_split_of_norm puny trie ss r _ hlr c1, fp_split_of_norm puny trie ss u _ hlu hu]
+      exact key
+    exact ⟨e, fp_string_of_split_eq puny trie ss r u e⟩
+
+/-- **(b) on STRINGS**: two lower-case strings of the class with the same normalized tuple
+(`normalize_url(…, unsplit=False)`, default options) have the same fingerprint, both result forms.
+PARTIAL: `u`, `v` lower-case strings (`str.lower` leaves them alone) whose cleaned, resolved forms
+are grammar strings with `LowerInput` records; outside: KF-C03-3 / `not_fullFingerprintOfNormalizeEq`. -/
+theorem fingerprint_of_normalize_eq_string_partial (puny : Str → Str) (trie : SNode Str) (ss : Bool)
+    (g₁ g₂ : UrlG) (u v : Str) (hg₁ : InClassOf true g₁ u) (hg₂ : InClassOf true g₂ v)
+    (hlu : lower u = u) (hlv : lower v = v)
+    (hL₁ : ∀ po, portVal g₁.port = some po → LowerInput (g₁.record po))
+    (hL₂ : ∀ po, portVal g₂.port = some po → LowerInput (g₂.record po))
+    (h : normalizeUrlStringSplit puny id {} true u = normalizeUrlStringSplit puny id {} true v) :
+    fingerprintUrlStringSplit puny id trie ss u = fingerprintUrlStringSplit puny id trie ss v ∧
+    fingerprintUrlString puny id trie ss u = fingerprintUrlString puny id trie ss v := by
+  have key : fingerprintUrlStringSplit puny id trie ss u = fingerprintUrlStringSplit puny id trie ss v := by
+    have n₁ := fun o => normalizeUrlSplit_grammar puny o true g₁ u hg₁
+    have n₂ := fun o => normalizeUrlSplit_grammar puny o true g₂ v hg₂
+    rw [normalizeUrlStringSplit_eq, normalizeUrlStringSplit_eq, n₁, n₂] at h
+    unfold UrlG.parsed at h n₁ n₂
+    cases hpo₁ : portVal g₁.port with
+    | none =>
+      cases hpo₂ : portVal g₂.port with
+      | none =>
+        rw [hpo₁, hpo₂] at h
+        simp only [Option.map_none] at h
+        cases h; rfl
+      | some po₂ => rw [hpo₁, hpo₂] at h; simp at h
+    | some po₁ =>
+      cases hpo₂ : portVal g₂.port with
+      | none => rw [hpo₁, hpo₂] at h; simp at h
+      | some po₂ =>
+        rw [hpo₁, hpo₂] at h
+        simp only [Option.map_some, Sum.inr.injEq] at h
+        have a₁ : normalizeUrlStringSplit puny id fpOpts true u =
+            .inr (normParts puny fpOpts g₁.proto.hasProto (g₁.record po₁)) := by
+          rw [normalizeUrlStringSplit_eq, n₁ fpOpts, hpo₁]; rfl
+        have a₂ : normalizeUrlStringSplit puny id fpOpts true v =
+            .inr (normParts puny fpOpts g₂.proto.hasProto (g₂.record po₂)) := by
+          rw [normalizeUrlStringSplit_eq, n₂ fpOpts, hpo₂]; rfl
+        rw [fp_split_of_norm puny trie ss u _ hlu a₁, fp_split_of_norm puny trie ss v _ hlv a₂]
+        have k := fingerprint_of_normalize_eq_partial (stringEnv puny id trie) ss (g₁.record po₁)
+          (g₂.record po₂) (hL₁ po₁ hpo₁) (hL₂ po₂ hpo₂) g₁.proto.hasProto g₂.proto.hasProto
+          g₁.proto.hasProto g₂.proto.hasProto h
+        rw [(hL₁ po₁ hpo₁).1, (hL₂ po₂ hpo₂).1] at k
+        exact k
+  exact ⟨key, fp_string_of_split_eq puny trie ss u v key⟩
+
+/-- non-vacuity of (c2) / (b) on strings: a lower-case URL with `www.`, an index file, a `gl`
+item, a tracking item and an escaped lower-case letter satisfies every hypothesis -/
+def exLower : UrlG :=
+  { proto := .scheme "http".toList, ui := none, host := "www.a.com".toList, port := none,
+    path := "/x/index.html".toList, query := some "gl=fr&b=2&utm_source=1&a=%61".toList,
+    fragment := none }
+
+example (trie : SNode Str) (ss : Bool) :
+    let u := "http://www.a.com/x/index.html?gl=fr&b=2&utm_source=1&a=%61".toList
+    let r := "http://www.a.com/x/index.html?gl=fr&b=2&utm_source=1&a=a".toList
+    fingerprintUrlString id id trie ss r = fingerprintUrlString id id trie ss u := by
+  intro u r
+  refine (fingerprint_canonicalize_string_partial id Canonicalize.punyLaws_id punyClean_id
+    "https".toList letterProtocol_https trie ss exLower u r (by decide +kernel) (by decide +kernel)
+    (by decide +kernel)
+    (infer_eq_self_of_clean _ (by decide +kernel) (by decide +kernel))
+    (infer_eq_self_of_clean _ (by decide +kernel) (by decide +kernel))
+    (by decide +kernel) (by decide +kernel) ?_ ?_).2
+  · intro po h
+    have : po = none := by
+      have : portVal exLower.port = some none := by decide +kernel
+      rw [this] at h; cases h; rfl
+    subst this
+    decide +kernel
+  · intro p' h
+    have : parseUrl r = some (reparsedOf id false false (exLower.record none)) := by decide +kernel
+    rw [this] at h; cases h
+    decide +kernel
 
 end Ural.Props.C03
